@@ -84,20 +84,43 @@ def rule_twins(ctx) -> None:
         chk.decide(ok, "C08.sign-verify-twin", fn.qual + " primitive", "the built padding and algorithm are the ones handed to the primitive", "", "", A.loc(KEYS, fn.node))
     # ECC
     sg, vf = ctx.own(KEYS, "PrivateKeyEcc", "sign"), ctx.own(KEYS, "PublicKeyEcc", "verify_signature")
-    names = ["hash_name", "signature_algorithm"]
-    ds, dv = _defs(sg, names), _defs(vf, names)
-    chk.decide(ds == dv and all(ds[n] for n in names), "C08.sign-verify-twin", "ECC sign <-> verify_signature", "hash and pre-hash selection are built by identical expressions on both sides", f"sign {ds} vs verify {dv}", "", A.loc(KEYS, vf.node))
-    want = {"hash_name": ["algorithm or self.default_hash_algorithm"], "signature_algorithm": ["prehashed => ec.ECDSA(utils.Prehashed(get_hash_algorithm(hash_name)))", "prehashed => ec.ECDSA(get_hash_algorithm(hash_name))"]}
-    chk.decide(ds == want, "C08.sign-verify-twin", sg.qual + " parameters", "ECDSA over the requested hash (or the curve's default), Prehashed only when asked", f"{ds}", "", A.loc(KEYS, sg.node))
-    t = norm(sg.node)
-    ok = "signature = self.key.sign(data, signature_algorithm)" in t and "if der_format: return signature" in t.replace("\n", " ").replace("    ", "") and norm(A.returns_in(sg.node)[-1].value) == "self.serialize_signature(signature, self.coordinate_size)"
-    chk.decide(ok, "C08.sign-verify-twin", sg.qual + " output", "DER on request, otherwise r||s at the curve's coordinate size", "", "", A.loc(KEYS, sg.node))
-    enc = [c for c in ast.walk(vf.node) if isinstance(c, ast.Call) and A.call_name(c) == "encode_dss_signature"]
-    eargs = [norm(a) for a in enc[0].args] if len(enc) == 1 else []
-    vcalls = [c for c in ast.walk(vf.node) if isinstance(c, ast.Call) and norm(c.func) == "self.key.verify"]
-    ok = eargs == ["int.from_bytes(signature[:coordinate_size], byteorder=Endianness.BIG.value)", "int.from_bytes(signature[coordinate_size:], byteorder=Endianness.BIG.value)"] and \
-        len(vcalls) == 1 and [norm(a) for a in vcalls[0].args[1:]] == ["data", "signature_algorithm"] and "coordinate_size = math.ceil(self.key.key_size / 8)" in norm(vf.node)
-    chk.decide(ok, "C08.sign-verify-twin", vf.qual + " raw input", "a raw signature is split at the coordinate size into r and s and re-encoded for the primitive, which is called with the data and the built algorithm", f"encode args {eargs}", "", A.loc(KEYS, vf.node))
+    # decision tables over the symbolic paths: {prehashed?: algorithm object handed to the primitive}
+    def alg_table(fn, prim, pos):
+        tab = {}
+        for q in A.spaths(fn.node):
+            for c in q.calls():
+                if norm(c.func) == prim and len(c.args) > pos:
+                    pol = True if q.assumes("prehashed", True) else False if q.assumes("prehashed", False) else None
+                    tab.setdefault(pol, set()).add((norm(c.args[pos]), tuple(norm(a) for a in c.args[:pos])))
+        return tab
+    ts, tv = alg_table(sg, "self.key.sign", 1), alg_table(vf, "self.key.verify", 2)
+    algs_s = {k: {a for a, _ in v} for k, v in ts.items()}
+    algs_v = {k: {a for a, _ in v} for k, v in tv.items()}
+    chk.decide(algs_s == algs_v and bool(algs_s), "C08.sign-verify-twin", "ECC sign <-> verify_signature", "hash and pre-hash selection hand the same algorithm object to the primitive on both sides", f"sign {algs_s} vs verify {algs_v}", "", A.loc(KEYS, vf.node))
+    H = "get_hash_algorithm(algorithm or self.default_hash_algorithm)"
+    want = {True: {f"ec.ECDSA(utils.Prehashed({H}))"}, False: {f"ec.ECDSA({H})"}}
+    chk.decide(algs_s == want, "C08.sign-verify-twin", sg.qual + " parameters", "ECDSA over the requested hash (or the curve's default), Prehashed only when asked", f"{algs_s}", "", A.loc(KEYS, sg.node))
+    # output of sign: DER on request, otherwise r||s at the curve's coordinate size
+    outs = {}
+    for q in A.spaths(sg.node):
+        if q.end == "return" and q.value is not None:
+            pol = True if q.assumes("der_format", True) else False if q.assumes("der_format", False) else None
+            v = norm(q.value)
+            for a in sorted({a for x in algs_s.values() for a in x}, key=len, reverse=True):
+                v = v.replace(a, "ALG")
+            outs.setdefault(pol, set()).add(v)
+    ok = outs == {True: {"self.key.sign(data, ALG)"}, False: {"self.serialize_signature(self.key.sign(data, ALG), self.coordinate_size)"}} and all(d == ("data",) for v in ts.values() for _, d in v)
+    chk.decide(ok, "C08.sign-verify-twin", sg.qual + " output", "DER on request, otherwise r||s at the curve's coordinate size", f"{outs}", "", A.loc(KEYS, sg.node))
+    # verify: a raw signature is split at the coordinate size, re-encoded and tried first; the given bytes are tried as DER
+    CS = "math.ceil(self.key.key_size / 8)"
+    eargs = set()
+    for q in A.spaths(vf.node):
+        for c in q.calls("encode_dss_signature"):
+            eargs.add((tuple(norm(ctx.prop_inline(vf, a)) for a in c.args), q.assumes("len(signature) == self.signature_size", True)))
+    want_e = {((f"int.from_bytes(signature[:{CS}], byteorder=Endianness.BIG.value)", f"int.from_bytes(signature[{CS}:], byteorder=Endianness.BIG.value)"), True)}
+    vargs = {d for v in tv.values() for _, d in v}
+    ok = eargs == want_e and vargs == {("der_signature", "data")}
+    chk.decide(ok, "C08.sign-verify-twin", vf.qual + " raw input", "a raw signature is split at the coordinate size into r and s and re-encoded for the primitive, which is called with the data and the built algorithm", f"encode args {sorted(eargs)}; verify args {sorted(vargs)}", "", A.loc(KEYS, vf.node))
     rets = [norm(r.value) for r in A.returns_in(vf.node)]
     chk.decide(rets.count("True") == 1 and rets[-1] == "False" and any(isinstance(h.type, ast.Name) and h.type.id == "InvalidSignature" for h in ast.walk(vf.node) if isinstance(h, ast.ExceptHandler)), "C08.sign-verify-twin", vf.qual + " verdict",
                "True only right after a successful primitive verification, False otherwise", f"returns {rets}", "", A.loc(KEYS, vf.node))
@@ -171,12 +194,39 @@ def rule_tables(ctx) -> None:
     # raw public-key length windows are pairwise disjoint (auto-detection by length is unambiguous across key types)
     sizes = prog.fold(ctx.cls(KEYS, "PrivateKeyRsa").consts.get("SUPPORTED_KEY_SIZES"), ctx.m(KEYS))
     rp = ctx.own(KEYS, "PublicKeyRsa", "recreate_public_numbers")
-    ifs = [s for s in ast.walk(rp.node) if isinstance(s, ast.If) and "data_len" in norm(s.test)]
-    if not isinstance(sizes, list) or len(ifs) != 1:
-        raise AnalysisError("C08.tables: RSA raw-length rule not found")
-    rsa_win: Dict[int, Set[int]] = {}
-    for k in sizes:
-        rsa_win[k] = {L for L in range(0, 700) if Evaluator({"key_size_bytes": k // 8, "data_len": L}).ev(ifs[0].test)}
+    if not isinstance(sizes, list):
+        raise AnalysisError("C08.tables: RSA key sizes not found")
+    # recreate_public_numbers evaluated on byte strings of every length: which lengths are accepted, and where they are split
+    from ..engines import ordereval as _oe
+
+    def cv_rsa(c: ast.Call, ev):
+        f = norm(c.func)
+        if f == "int.from_bytes" and len(c.args) + len(c.keywords) == 2:
+            order = ev.ev(A.arg_of(c, 1, "byteorder"))
+            return int.from_bytes(ev.ev(c.args[0]), order)
+        if f == "rsa.RSAPublicNumbers" and not c.args and {k.arg for k in c.keywords} == {"e", "n"}:
+            kw = {k.arg: ev.ev(k.value) for k in c.keywords}
+            return ("NUMS", kw["n"], kw["e"])
+        if f == "rsa.RSAPublicNumbers" and len(c.args) == 2 and not c.keywords:
+            return ("NUMS", ev.ev(c.args[1]), ev.ev(c.args[0]))
+        return _oe.NOT_MODELLED
+    rsa_win: Dict[int, Set[int]] = {k: set() for k in sizes}
+    split_probs = []
+    sym_rsa = ctx.fold_sym(rp, {"PrivateKeyRsa.SUPPORTED_KEY_SIZES": tuple(sizes), "cls.SUPPORTED_KEY_SIZES": tuple(sizes), "Endianness.BIG.value": "big", "Endianness.LITTLE.value": "little"})
+    for L in range(0, 700):
+        data = bytes((i % 251) + 1 for i in range(L))
+        try:
+            out = Evaluator({"data": data}, sym_rsa, opaque_return=False, call_value=cv_rsa).run(A.body_of(rp.node))
+        except Unsupported as u:
+            raise AnalysisError(f"C08.tables: PublicKeyRsa.recreate_public_numbers left the fragment: {u}")
+        if out.kind == "return" and isinstance(out.value, tuple) and out.value[0] == "NUMS":
+            ks = [k for k in sizes if out.value[1] == int.from_bytes(data[:k // 8], "big") and out.value[2] == int.from_bytes(data[k // 8:], "big")]
+            if len(ks) != 1:
+                split_probs.append(f"{L} bytes: not split into big-endian modulus || exponent at a supported modulus size")
+            else:
+                rsa_win[ks[0]].add(L)
+        elif out.kind != "raise":
+            split_probs.append(f"{L} bytes: {out.kind}")
     ecc_win: Dict[str, Set[int]] = {}
     rf = ctx.own(KEYS, "PublicKeyEcc", "recreate_from_data")
     gc = [n for n in ast.walk(rf.node) if isinstance(n, ast.FunctionDef) and n.name == "get_curve"]
@@ -200,28 +250,47 @@ def rule_tables(ctx) -> None:
     # RSA raw export/parse: modulus first, exponent after, big endian
     ex = ctx.own(KEYS, "PublicKeyRsa", "export")
     t = norm(ex.node)
-    ok = "return mod_rotk_bytes + exp_rotk_bytes" in t and "exp_rotk_bytes = exp_rotk.to_bytes(exp_length, Endianness.BIG.value)" in t and "mod_rotk_bytes = mod_rotk.to_bytes(modulus_length, Endianness.BIG.value)" in t
-    t2 = norm(rp.node)
-    ok = ok and "n = int.from_bytes(data[:key_size_bytes], Endianness.BIG.value)" in t2 and "e = int.from_bytes(data[key_size_bytes:], Endianness.BIG.value)" in t2
-    chk.decide(ok, "C08.tables", "RSA raw export <-> recreate_public_numbers", "modulus || exponent, big endian, split at the modulus size on both sides", "", "", A.loc(KEYS, ex.node))
+    from ..engines import bytelayout
+    nf = bytelayout.normal_form(lambda e: prog.fold(e, ex.module, ex.cls), ex.node)
+    # the raw form as a field list (however the bytes are put together): modulus at its length, then exponent at its length
+    ok = nf == [("modulus_length", "int", "big", "self.n"), ("exp_length", "int", "big", "self.e")]
+    ok = ok and not split_probs
+    chk.decide(ok, "C08.tables", "RSA raw export <-> recreate_public_numbers", "modulus || exponent, big endian, split at the modulus size on both sides", f"export {nf}; parse: {split_probs[:2]}", "", A.loc(KEYS, ex.node))
     px = ctx.own(KEYS, "PublicKeyEcc", "export")
     t, t2 = norm(px.node), norm(rf.node)
-    ok = "return x_bytes + y_bytes" in t and "coordinate_length = data_length // 2" in t2 and "coor_x = int.from_bytes(data[:coordinate_length], byteorder=Endianness.BIG.value)" in t2 and "coor_y = int.from_bytes(data[coordinate_length:], byteorder=Endianness.BIG.value)" in t2
+    nfx = bytelayout.normal_form(lambda e: prog.fold(e, px.module, px.cls), px.node)
+    ok = nfx == [("self.coordinate_size", "int", "big", "self.x"), ("self.coordinate_size", "int", "big", "self.y")] and "coordinate_length = data_length // 2" in t2 and "coor_x = int.from_bytes(data[:coordinate_length], byteorder=Endianness.BIG.value)" in t2 and "coor_y = int.from_bytes(data[coordinate_length:], byteorder=Endianness.BIG.value)" in t2
     chk.decide(ok, "C08.tables", "ECC raw export <-> recreate_from_data", "x || y, big endian, split in the middle on both sides", "", "", A.loc(KEYS, px.node))
     # encodings
     ge = ctx.own(CT, "SPSDKEncoding", "get_cryptography_encodings")
     d = [n for n in ast.walk(ge.node) if isinstance(n, ast.Dict)]
     m = {norm(k): norm(v) for k, v in zip(d[0].keys, d[0].values)} if d else {}
     chk.decide(m == {"SPSDKEncoding.PEM": "Encoding.PEM", "SPSDKEncoding.DER": "Encoding.DER"}, "C08.tables", ge.qual, "PEM -> PEM, DER -> DER, anything else rejected", f"{m}", "", A.loc(CT, ge.node))
+    # loader selection as a decision table over the symbolic paths (dictionary dispatch, if/elif chain and conditional expression agree)
+    def loader_table(fn, subject: str, loaders: Dict[str, str]):
+        """{encoding: {loader calls seen under it}} and the problems found"""
+        probs, seen = [], {}
+        for q in A.spaths(fn.node):
+            for c in q.calls():
+                f = norm(c.func)
+                if f not in loaders.values():
+                    continue
+                encs = [e for e, l in loaders.items() if l == f]
+                enc = encs[0]
+                others = [e for e in loaders if e != enc]
+                sel = q.assumes(f"{subject} == SPSDKEncoding.{enc}", True) or (len(others) == 1 and q.assumes(f"{subject} == SPSDKEncoding.{others[0]}", False))
+                if not sel:
+                    probs.append(f"{f} is reached without the encoding being {enc}: {q!r}"[:200])
+                seen.setdefault(enc, set()).add(", ".join(norm(a) for a in c.args) + ("|pw" if q.assumes("password", True) else "|nopw" if q.assumes("password", False) else ""))
+        return seen, probs
     pp = ctx.own(KEYS, "PrivateKey", "parse")
-    d = [n for n in ast.walk(pp.node) if isinstance(n, ast.Dict)]
-    m = {norm(k): norm(v) for k, v in zip(d[0].keys, d[0].values)} if d else {}
-    chk.decide(m == {"SPSDKEncoding.PEM": "_load_pem_private_key", "SPSDKEncoding.DER": "_load_der_private_key"} and "password.encode('utf-8') if password else None" in norm(pp.node), "C08.tables", pp.qual,
-               "the sniffed encoding selects the matching loader; the password is passed as UTF-8 bytes", f"{m}", "", A.loc(KEYS, pp.node))
+    seen, probs = loader_table(pp, "SPSDKEncoding.get_file_encodings(data)", {"PEM": "_load_pem_private_key", "DER": "_load_der_private_key"})
+    want_args = {"data, password.encode('utf-8')|pw", "data, None|nopw"}
+    chk.decide(not probs and seen == {"PEM": want_args, "DER": want_args}, "C08.tables", pp.qual,
+               "the sniffed encoding selects the matching loader; the password is passed as UTF-8 bytes", "; ".join(probs) or f"{seen}", "", A.loc(KEYS, pp.node))
     cl = ctx.func(KEYS, "_crypto_load_private_key")
-    d = [n for n in ast.walk(cl.node) if isinstance(n, ast.Dict)]
-    m = {norm(k): norm(v) for k, v in zip(d[0].keys, d[0].values)} if d else {}
-    chk.decide(m == {"SPSDKEncoding.DER": "crypto_load_der_private_key", "SPSDKEncoding.PEM": "crypto_load_pem_private_key"}, "C08.tables", cl.qual, "DER -> DER loader, PEM -> PEM loader", f"{m}", "", A.loc(KEYS, cl.node))
+    seen, probs = loader_table(cl, "encoding", {"DER": "crypto_load_der_private_key", "PEM": "crypto_load_pem_private_key"})
+    chk.decide(not probs and seen == {"DER": {"data, password"}, "PEM": {"data, password"}}, "C08.tables", cl.qual, "DER -> DER loader, PEM -> PEM loader", "; ".join(probs) or f"{seen}", "", A.loc(KEYS, cl.node))
     # private export: same container and the same password rule for RSA and ECC
     exps = {}
     for cn in ("PrivateKeyRsa", "PrivateKeyEcc"):
